@@ -1080,3 +1080,93 @@ Proof.
   destruct (producers_same v bs Hw He) as [A B].
   rewrite (A t Ht), (B b Hb). repeat split; reflexivity.
 Qed.
+
+(* ------------------------------------------------------------------ jbl_ptr_serialize, jbl_ptr_cmp (deepening round) *)
+(* a segment that needs no escaping *)
+Definition plain_seg (s : list Z) : Prop := Forall (fun c => c <> 47 /\ c <> 126 /\ c <> 0) s.
+
+Lemma split_plain s : plain_seg s -> forall rest cur, split_slash (s ++ rest) cur = split_slash rest (rev s ++ cur).
+Proof.
+  induction 1 as [|c r (H1 & H2 & H3) Hr IH]; intros rest cur; [reflexivity|].
+  cbn [app split_slash]. replace (c =? 47) with false by lia. rewrite IH. cbn [rev]. rewrite <- app_assoc. reflexivity.
+Qed.
+
+Lemma split_serialize : forall r cur, Forall plain_seg r -> split_slash (ptr_serialize r) cur = rev cur :: r.
+Proof.
+  induction r as [|s r IH]; intros cur HF; [reflexivity|]. inversion HF as [|? ? Hs Hr]; subst.
+  unfold ptr_serialize. cbn [flat_map]. fold (ptr_serialize r). cbn [app split_slash]. cbn [Z.eqb Pos.eqb].
+  rewrite (split_plain s Hs). rewrite (IH _ Hr). rewrite app_nil_r, rev_involutive. reflexivity.
+Qed.
+
+Lemma rfc_unescape_plain s : plain_seg s -> rfc_unescape s = Some s.
+Proof.
+  induction 1 as [|c r (H1 & H2 & H3) Hr IH]; [reflexivity|]. cbn [rfc_unescape]. replace (c =? 126) with false by lia.
+  rewrite IH. reflexivity.
+Qed.
+
+Lemma all_some_plain r : Forall plain_seg r -> all_some (map rfc_unescape r) = Some r.
+Proof.
+  induction 1 as [|s r Hs Hr IH]; [reflexivity|]. cbn [map all_some]. rewrite (rfc_unescape_plain s Hs), IH. reflexivity.
+Qed.
+
+Lemma cstr_nz s : Forall (fun c => c <> 0) s -> cstr s = s.
+Proof. induction 1 as [|c r Hc Hr IH]; [reflexivity|]. cbn [cstr]. replace (c =? 0) with false by lia. rewrite IH. reflexivity. Qed.
+
+Lemma cstr_serialize r : Forall plain_seg r -> cstr (ptr_serialize r) = ptr_serialize r.
+Proof.
+  intros HF. apply cstr_nz. apply Forall_forall. intros c Hc. unfold ptr_serialize in Hc. apply in_flat_map in Hc as (s & Hs & Hc).
+  rewrite Forall_forall in HF. specialize (HF s Hs). unfold plain_seg in HF. rewrite Forall_forall in HF.
+  destruct Hc as [<-|Hc]; [discriminate|]. destruct (HF c Hc) as (_ & _ & H0). exact H0.
+Qed.
+
+(* jbl_ptr_serialize inverts jbl_ptr_alloc on pointers whose segments need no escaping ... *)
+Theorem ptr_serialize_parse : forall segs, Forall plain_seg segs -> trailing_slash (ptr_serialize segs) = false ->
+  ptr_parse (ptr_serialize segs) = Some segs.
+Proof.
+  intros segs HF Ht. rewrite ptr_parse_rfc6901 by (rewrite cstr_serialize; assumption). rewrite (cstr_serialize segs HF).
+  destruct segs as [|s r]; [reflexivity|]. inversion HF as [|? ? Hs Hr]; subst.
+  unfold ptr_serialize. cbn [flat_map]. fold (ptr_serialize r). unfold rfc_ptr_parse. cbn [app]. cbn [Z.eqb Pos.eqb].
+  rewrite (split_plain s Hs), (split_serialize r _ Hr). rewrite app_nil_r, rev_involutive.
+  apply (all_some_plain (s :: r) HF).
+Qed.
+
+(* ... and NOT in general: a segment holding '/' or '~' is written back unescaped, so the text denotes another pointer *)
+Theorem ptr_serialize_parse_refuted : exists path segs, ptr_parse path = Some segs /\ ptr_parse (ptr_serialize segs) <> Some segs.
+Proof. exists [47; 97; 126; 49; 98], [[97; 47; 98]]. split; [vm_compute; reflexivity|vm_compute; discriminate]. Qed.
+
+Lemma strcmp_sgn_refl a : strcmp_sgn a a = 0.
+Proof. induction a as [|x a IH]; [reflexivity|]. cbn [strcmp_sgn]. rewrite Z.ltb_irrefl. exact IH. Qed.
+Lemma strcmp_sgn_eq : forall a b, strcmp_sgn a b = 0 -> a = b.
+Proof.
+  induction a as [|x a IH]; intros [|y b] H; try discriminate; [reflexivity|]. cbn [strcmp_sgn] in H.
+  destruct (x <? y) eqn:E1; [discriminate|]. destruct (y <? x) eqn:E2; [discriminate|].
+  f_equal; [lia|apply IH; assumption].
+Qed.
+Lemma segs_cmp_refl s : segs_cmp s s = 0.
+Proof. induction s as [|a r IH]; [reflexivity|]. cbn [segs_cmp]. rewrite strcmp_sgn_refl. exact IH. Qed.
+Lemma segs_cmp_eq : forall s1 s2, length s1 = length s2 -> segs_cmp s1 s2 = 0 -> s1 = s2.
+Proof.
+  induction s1 as [|a r IH]; intros [|b r2] Hl H; try discriminate; [reflexivity|]. cbn [segs_cmp] in H.
+  destruct (strcmp_sgn a b =? 0) eqn:E; [|lia]. apply Z.eqb_eq in E. apply strcmp_sgn_eq in E. subst b.
+  f_equal. apply IH; [injection Hl; auto|assumption].
+Qed.
+
+(* jbl_ptr_cmp: a pointer equals itself, and only pointers with the same segments compare equal *)
+Theorem ptr_cmp_refl : forall path segs, ptr_parse path = Some segs -> ptr_cmp path path = Some 0.
+Proof.
+  intros path segs H. unfold ptr_parse in H. unfold ptr_cmp. destruct (ptr_parse3 path) as [| |ss]; try discriminate.
+  rewrite !Z.sub_diag. cbn [Z.mul Z.add Z.eqb negb]. rewrite Z.eqb_refl. cbn [negb]. rewrite segs_cmp_refl. reflexivity.
+Qed.
+
+Theorem ptr_cmp_zero : forall p1 p2, ptr_cmp p1 p2 = Some 0 ->
+  exists segs, ptr_parse p1 = Some segs /\ ptr_parse p2 = Some segs.
+Proof.
+  intros p1 p2 H. unfold ptr_cmp in H. unfold ptr_parse.
+  destruct (ptr_parse3 p1) as [| |s1]; try discriminate. destruct (ptr_parse3 p2) as [| |s2]; try discriminate.
+  match type of H with context [negb (?d =? 0)] => destruct (d =? 0) eqn:Ed end; cbn [negb] in H.
+  2:{ injection H as H. apply Z.eqb_neq in Ed. destruct (Z.sgn_spec (((zlen s1 - zlen s2) * jbinn_sizeof_ptr + (zlen (cstr p1) - zlen (cstr p2))))) as [[? ?]|[[? ?]|[? ?]]]; lia. }
+  destruct (zlen s1 =? zlen s2) eqn:El; cbn [negb] in H.
+  2:{ injection H as H. apply Z.eqb_neq in El. destruct (Z.sgn_spec (zlen s1 - zlen s2)) as [[? ?]|[[? ?]|[? ?]]]; lia. }
+  injection H as H. apply Z.eqb_eq in El. exists s1. split; [reflexivity|]. f_equal. symmetry. apply segs_cmp_eq; [|assumption].
+  unfold zlen in El. lia.
+Qed.
